@@ -300,7 +300,7 @@ class Gen:
 
 WEIGHTS = [('push', 14), ('append', 3), ('pop', 9), ('pushat', 12), ('popat', 10), ('get', 8), ('set', 7), ('mem', 5), ('rem', 7),
            ('concat', 3), ('assign', 2), ('assignf', 1.5), ('pushelem', 2.5), ('pushatelem', 3.5), ('setelem', 3), ('remelem', 1.5), ('memelem', 1), ('concatelems', 2), ('reserve', 1), ('copy', 1.5), ('resize', 2.5), ('sort', 3),
-           ('iter', 2), ('len', 1), ('del', 1), ('new', 2)]
+           ('iter', 2), ('len', 1), ('layout', 0.7), ('del', 1), ('new', 2)]
 
 
 def random_history(rng, nops, kinds, valmode, maxlen=60):
@@ -352,6 +352,8 @@ def random_history(rng, nops, kinds, valmode, maxlen=60):
         elif op == 'resize': g.resize(slot)
         elif op == 'sort': g.sort(slot)
         elif op in ('iter', 'len'): g.simple(op, slot)
+        elif op == 'layout':
+            if s.kind in ARRS: g.simple('layout', slot)
         elif op == 'del':
             if len(g.slots) > 1: g.delete(slot)
     return g.lines
@@ -394,9 +396,12 @@ def locality_history(rng, kind, nops, valmode='small'):
 def growth_sweep(rng, kind, n, valmode='small'):
     """push up to n, pop to empty; insert / remove at the front; shrink by popat in the middle: crosses every growth and shrink"""
     g = Gen(rng, valmode); g.new(0, kind, [])
-    for _ in range(n): g.push(0)
+    for j in range(n):
+        g.push(0)
+        if kind in ARRS and (j < 12 or j % 17 == 0): g.simple('layout', 0)          # every stride / capacity step at the small end
     g.simple('iter', 0)
     for _ in range(n + 1): g.pop(0)
+    if kind in ARRS: g.simple('layout', 0)                                         # empty again: data == NULL
     for _ in range(n // 2): g.pushat(0, 0)
     for _ in range(n // 2): g.pushat(0, -1)
     g.simple('iter', 0)
@@ -489,7 +494,7 @@ def chunks(name, lines, size=400):
 
 class C04(Spec):
     id = 'C04'; engine = 'seq'; harness = 'h_seq'; driver = 'drv_seq'
-    generators = ()
+    generators = ('SeqSrc',)
     harness_timeout = 300
     technique = ('Lean 4 proofs in two layers about an executable model that mirrors Array.c / List.c / Tuple.c. STORE level (what the driver runs and what is '
                  'compared with the C representation): Array = block of record cells with memmove as an index-range copy and realloc as a new block, '
@@ -508,6 +513,10 @@ class C04(Spec):
                   'sort, assign whose arguments are in range for the type, nothing is raised, the container holds exactly the abstract sequence, and len / get with '
                   'positive and negative indices / mem / forward and backward iteration agree with it (Tuple iteration and mem: under distinct element pointers, '
                   'known finding F13 otherwise, with C04_tuple_mem_before_cycle for what survives); C04_*_out_of_range: the abstract "in range" is exactly what the code accepts; '
+                  'C04_source_*: the index normalisations and bounds tests of the nine indexed functions, the capacity policy of Array_Reserve_More / _Less, the memmove / realloc arguments of '
+                  'Array / Tuple push_at / pop_at / push / pop, the walk choice of List_At, the record layout (Array_Step / _Item / _Alloc / _Size_Round) and the List node layout are EXTRACTED from the source as terms '
+                  '(translate/g_seq.py -> CelloGen.SeqSrc) and the operations run with them are proved equal to the modelled ones for every state and argument (C04_source_ops_are_modelled, _history_array, _history_never_ub, '
+                  '_index_rules, _capacity_policy, _array_layout for every element size, _memmove_bytes, _list_node_layout, _statement_order); '
                   'C04_sort_perm / C04_sort_sorted: the middle-pivot Lomuto quicksort leaves a permutation, ordered for every strict partial order; C04_rem_first (all three types); '
                   'aliased arguments: assign(x, x) changes nothing (C04_self_assign, since fix a3140e4; the old code refuted), concat(x, x) and an Array\'s own element '
                   'passed to push / push_at or held by the operand of concat / assign (tuple(get(x, k), ...)) are known findings with _statement / _refuted / _partial '
@@ -517,8 +526,8 @@ class C04(Spec):
                   'element and Tuples that are not on the heap (C04_tuple_terminal_element, C04_tuple_not_on_heap). The store-level model is compared with the real '
                   'containers after every operation of thousands of generated histories (all index values, every growth and shrink step, duplicates, own elements as arguments, '
                   'iterator-only sources, adversarial sort inputs).')
-    level_note = ('Trusted: Lean kernel; the hand-written store-level model lean/Cello/SeqStore.lean (+ Seq.lean, Sort.lean) is tied to the C code by testing only (white-box '
-                  'differential runs under ASan/UBSan), not by proof; element types in the correspondence are Int, String, a 12-byte and a 5-byte record type, heap Tuples of Int objects. '
+    level_note = ('Trusted: Lean kernel; the hand-written store-level model lean/Cello/SeqStore.lean (+ Seq.lean, Sort.lean) is tied to the C code by testing (white-box '
+                  'differential runs under ASan/UBSan) and, for its arithmetic (indices, bounds, capacity policy, memmove / realloc arguments, layout), by the extracted terms of CelloGen.SeqSrc (the expression reader translate/g_seq.py is trusted), not by proof of the C semantics; element types in the correspondence are Int, String, a 12-byte and a 5-byte record type, heap Tuples of Int objects. '
                   'Not covered by generated inputs: concat(x, x), an Array\'s own element where the Array must grow or k >= i, an operand of pointers to own elements where the Array must grow '
                   '(concat) or at all (assign), resize of a List<String> beyond its length, assign(Tuple, filter) on a non-empty Tuple (known findings, modelled, refuted, with witnesses); '
                   'the store-level List versions of concat / assign with an operand of own-element pointers and set(x, i, get(x, k)) on cells are executed and compared, not proved; '
@@ -535,6 +544,7 @@ class C04(Spec):
             '(c) every index -len-2..len+2 for every length 0..L for push_at/pop_at/get/set and every kind, '
             '(d) sort inputs sorted/reversed/constant/runs/organ-pipe/few keys/many keys with 4 comparators (tags make instability visible), '
             '(e) long containers (quick 3000, thorough 20000; Tuple 600/2000) with operations at both ends and the middle, '
+            '(g) `layout` ops on Arrays of every element type at every small length and capacity: element size, rounded size, stride, offset of element nitems, the record Array_Alloc zeroes and its header position, block bytes - observed on the real functions, computed by the driver from the extracted terms, '
             '(f) corpus files. After every op the harness dumps the concrete representation (compared line by line with the dump of the store-level Lean model: cells in use and '
             'capacity, node chain with link check, cell block up to Terminal) and its reference array checks contents, len, get for all (or sampled) positive and negative indices, '
             'mem, both iteration directions, sort = ordered permutation, rem = first equal element, exceptions for out-of-range arguments. The driver also evaluates the list-level '
